@@ -1,7 +1,9 @@
-//! Correspondence harness of property C05 (stub).
-use mzkh::Ctx;
+//! Correspondence harness of property C05 (foreign-field and big-integer gadgets).
+mod sets;
+mod bounds;
 
 fn main() {
-    let ctx = Ctx::from_args("C05");
+    let mut ctx = mzkh::Ctx::from_args("C05");
+    bounds::run(&mut ctx);
     ctx.finish();
 }
